@@ -32,6 +32,9 @@ BAD_KEYS = ["intkey", "nonekey", "tuplekey", "floatkey", "boolkey"]
 BAD_VALUES = ["set", "frozenset", "object", "complex", "function", "type", "decimal", "bytes_key_dict_value",
               "generator_obj", "module"]
 DOT_KEYS = ["dotkey", "dotkey_only", "dotkey_end"]
+# values that are themselves synced collections of a family with weaker rules (they may legally hold dotted
+# keys); only meaningful for the attribute families
+SYNCED_DOT = ["synced_dict_dotkey", "synced_list_dotkey", "synced_child_dotkey"]
 SHAPES = ["top", "in_list", "in_dict", "in_tuple", "in_list_in_dict", "in_dict_in_list", "deep3", "with_siblings"]
 
 D_INIT = {"d": {"x": 1}, "l": [1, {"y": 2}, [3]], "ld": [{"dl": [0, {"z": 1}]}], "s": "v"}
@@ -50,7 +53,24 @@ KNOWN_PUBLIC = {
 }
 
 
-def make_item(kind):
+def make_item(kind, scratch=None):
+    if kind in SYNCED_DOT:
+        from synced_collections.backends.collection_json import JSONDict, JSONList
+        import os
+        import uuid
+
+        fn = os.path.join(scratch, f"weak_{uuid.uuid4().hex}.json")
+        if kind == "synced_dict_dotkey":
+            o = JSONDict(fn)
+            o["a.b"] = 1
+            return o
+        if kind == "synced_list_dotkey":
+            o = JSONList(fn)
+            o.append({"x.y": 1})
+            return o
+        o = JSONDict(fn)
+        o["child"] = {"deep": [{"p.q": 2}]}
+        return o["child"]
     if kind == "decimal":
         return decimal.Decimal("1.5")
     if kind == "bytes_key_dict_value":
@@ -114,7 +134,7 @@ def forbidden_in(x, info, path=()):
 def applicable(info, kind):
     if kind in BAD_KEYS:
         return True
-    if kind in DOT_KEYS:
+    if kind in DOT_KEYS or kind in SYNCED_DOT:
         return info.forbids_dot
     return info.forbids_nonjson
 
@@ -129,14 +149,12 @@ def cells(info):
             t = t[k]
         entries = DICT_ENTRIES if isinstance(t, dict) else LIST_ENTRIES
         for entry in entries:
-            for kind in BAD_KEYS + BAD_VALUES + DOT_KEYS:
+            for kind in BAD_KEYS + BAD_VALUES + DOT_KEYS + SYNCED_DOT:
                 if not applicable(info, kind):
                     continue
                 for shape in SHAPES:
-                    if entry == "update_kwargs" and shape == "top" and kind not in BAD_VALUES:
-                        pass
                     out.append((tpath, entry, kind, shape))
-    for kind in BAD_KEYS + BAD_VALUES + DOT_KEYS:
+    for kind in BAD_KEYS + BAD_VALUES + DOT_KEYS + SYNCED_DOT:
         if applicable(info, kind):
             for shape in SHAPES:
                 out.append(([], "ctor", kind, shape))
@@ -160,7 +178,7 @@ def attempt(info, cell):
     try:
         res = catalog.Resource(info, scratch, "a")
         init = copy.deepcopy(D_INIT if info.kind == "dict" else L_INIT)
-        item = make_item(kind)
+        item = make_item(kind, scratch)
         val = wrap(item, shape)
         sig = {"cls": info.name, "family": info.family, "entry": entry, "item": kind, "shape": shape,
                "target_depth": len(tpath)}
